@@ -18,7 +18,9 @@ for e in kf["findings"]:
     if only and e["id"] not in only:
         continue
     cmd = ["/venv/bin/python", os.path.join(HERE, "tools", "add_finding.py"), e["property"], "0", e["id"], e["status"], e["text"],
-           "--search", "6000", "--sig", json.dumps(e["signature"]), "--line", e.get("line", "")]
+           "--search", "6000", "--line", e.get("line", "")]
+    if e["status"] == "fixed":
+        cmd += ["--sig", json.dumps(e["signature"])]  # known entries are matched by the classifier id alone
     if e["status"] == "fixed":
         cmd += ["--src", ORIG + "/src", "--commit", e.get("commit") or ""]
     p = subprocess.run(cmd, capture_output=True, text=True)
